@@ -115,7 +115,7 @@ NumValue(s, ext) ==
       eDigs == IF expo # <<>> /\ expo[1] \in {43, 45} THEN Tail(expo) ELSE expo
       okGrammar == /\ AllDigits(ip) /\ (Len(ip) = 1 \/ ip[1] # 48)
                    /\ Cardinality(dS) <= 1 /\ (dPos = 0 \/ AllDigits(fp))
-                   /\ (ePos = 0 \/ (AllDigits(eDigs) /\ Len(eDigs) <= 3))
+                   /\ (ePos = 0 \/ AllDigits(eDigs))
       isInt == dPos = 0 /\ ePos = 0
       mag == StripZ(Digs(ip))
       all == Digs(ip) \o Digs(fp)
@@ -128,8 +128,9 @@ NumValue(s, ext) ==
   ELSE IF ~okGrammar THEN [ok |-> FALSE]
   ELSE IF isInt THEN (IF DecLe(mag, IF neg THEN MinI64 ELSE MaxI64) THEN [ok |-> TRUE, v |-> [t |-> "int", neg |-> neg /\ mag # <<>>, mag |-> mag]]
                       ELSE [ok |-> FALSE])
+  \* a zero mantissa is zero whatever the exponent says (0e10000 is a standard-compliant numeral for 0.0)
   ELSE IF sig = <<>> THEN [ok |-> TRUE, v |-> [t |-> "float", neg |-> neg, d |-> <<0, 0, 0, 0, 0, 0>>, e |-> 0, tie |-> FALSE, alt |-> <<0, 0, 0, 0, 0, 0>>, altE |-> 0]]
-  ELSE IF e10 > 300 \/ e10 < -300 THEN [ok |-> FALSE]                       \* outside the range this model vouches for
+  ELSE IF Len(eDigs) > 3 \/ e10 > 300 \/ e10 < -300 THEN [ok |-> FALSE]                       \* outside the range this model vouches for
   ELSE [ok |-> TRUE, v |-> [t |-> "float", neg |-> neg, d |-> six.d, e |-> e10 + (IF six.carry THEN 1 ELSE 0), tie |-> six.tie, alt |-> six.down, altE |-> e10]]
 
 (* ---- parser over tokens ---------------------------------------------------------------- *)
